@@ -96,9 +96,42 @@ impl<'a> Walker<'a> {
         }
         Ok(())
     }
+    /// decoder/main.md, "END operation": h0..h3 hold the hash of the block that ends, h4 = 1 iff
+    /// the block is the body of a loop, h5 = 1 for a loop block (checked for loops that were
+    /// entered); the call flags h6 / h7 are zero for blocks that are not calls
+    fn end_flags(&self, r: usize, b: &CodeBlock, is_loop_body: bool, loop_entered: Option<bool>) -> Result<(), String> {
+        let h: [Felt; 4] = b.hash().into();
+        for k in 0..4 {
+            if self.main.get(tk::DEC_H + k, r) != h[k] {
+                return Err(format!("row {r}: the END row does not carry the hash of the block that ends (element {k})"));
+            }
+        }
+        if self.g(tk::DEC_H + 4, r) != is_loop_body as u64 {
+            return Err(format!("row {r}: END flag h4 (body of a loop) is {} for a block that is{} the body of a loop", self.g(tk::DEC_H + 4, r), if is_loop_body { "" } else { " not" }));
+        }
+        match loop_entered {
+            Some(true) if self.g(tk::DEC_H + 5, r) != 1 => return Err(format!("row {r}: END flag h5 (loop block) is not set at the end of a loop that was entered")),
+            None if self.g(tk::DEC_H + 5, r) != 0 => return Err(format!("row {r}: END flag h5 (loop block) is set at the end of a block that is not a loop")),
+            _ => {}
+        }
+        if !matches!(b, CodeBlock::Call(_)) && (self.g(tk::DEC_H + 6, r) != 0 || self.g(tk::DEC_H + 7, r) != 0) {
+            return Err(format!("row {r}: call flags h6/h7 are ({}, {}) at the END of a block that is not a call", self.g(tk::DEC_H + 6, r), self.g(tk::DEC_H + 7, r)));
+        }
+        Ok(())
+    }
     fn walk(&mut self, b: &CodeBlock, nest: usize) -> Result<(), String> {
+        self.walk_in(b, nest, false)
+    }
+    fn walk_in(&mut self, b: &CodeBlock, nest: usize, is_loop_body: bool) -> Result<(), String> {
         self.blocks += 1;
         self.max_nest = self.max_nest.max(nest);
+        let mut loop_entered: Option<bool> = None;
+        let res = self.walk_inner(b, nest, &mut loop_entered);
+        res?;
+        // the END row of this block is the last row consumed
+        self.end_flags(self.pos - 1, b, is_loop_body, loop_entered)
+    }
+    fn walk_inner(&mut self, b: &CodeBlock, nest: usize, loop_entered: &mut Option<bool>) -> Result<(), String> {
         match b {
             CodeBlock::Join(j) => {
                 let r = self.expect(opc::JOIN, "JOIN")?;
@@ -121,11 +154,12 @@ impl<'a> Walker<'a> {
                 let r = self.expect(opc::LOOP, "LOOP")?;
                 let id = self.g(tk::DEC_ADDR, r + 1);
                 match self.g(tk::STACK, r) {
-                    0 => {}
+                    0 => *loop_entered = Some(false),
                     1 => {
+                        *loop_entered = Some(true);
                         self.loops_entered += 1;
                         loop {
-                            self.walk(l.body(), nest + 1)?;
+                            self.walk_in(l.body(), nest + 1, true)?;
                             match self.g(tk::STACK, self.pos) {
                                 1 => {
                                     self.expect(opc::REPEAT, "REPEAT")?;
@@ -206,6 +240,14 @@ pub fn check_case(case: &Case, program: &vm_core::Program, trace: &processor::Ex
         let op = tk::opcode_at(main, r);
         if op != opc::HALT {
             return Err(Viol::new("C13:no-halt-padding", format!("row {r} after the end of the program holds opcode {:#09b} instead of HALT", op), cj()));
+        }
+        // HALT copies h0..h3 to the next row and populates all other decoder registers with 0
+        if r > end {
+            for c in [tk::DEC_ADDR, tk::DEC_H + 4, tk::DEC_H + 5, tk::DEC_H + 6, tk::DEC_H + 7, tk::DEC_IN_SPAN, tk::DEC_GROUP_COUNT, tk::DEC_OP_INDEX] {
+                if tk::col_u64(main, c, r) != 0 {
+                    return Err(Viol::new("C13:halt-row-registers", format!("HALT padding row {r}: decoder column {} holds {} instead of 0", c - tk::DEC, tk::col_u64(main, c, r)), cj()));
+                }
+            }
         }
     }
     // control rows never carry the in_span flag
